@@ -6,7 +6,7 @@
 From Coq Require Import String.
 From OCI Require Export Base.Outcome Model.UploadMem.
 From OCI Require Export Model.UploadSpec.
-From OCI Require Import Proofs.UploadLaw Proofs.Upload Proofs.UploadMem.
+From OCI Require Import Proofs.RangeCodec Proofs.UploadLaw Proofs.Upload Proofs.UploadMem.
 
 Local Open Scope Z_scope.
 
@@ -19,7 +19,7 @@ Fixpoint rl (l : list (N * N)) : bytes :=
   | (n, b) :: l' => rep n b ++ rl l'
   end.
 
-Record case := {
+Record scase := {
   c_stack : stack;
   c_repo : bytes;
   c_hash : alist bytes;                           (* content -> sha256 digest, from the real code *)
@@ -36,7 +36,7 @@ Definition tbl_hash (t : alist bytes) (c : bytes) : bytes :=
 Definition one_piece (b : bytes) : list bytes := match b with [] => [] | _ => [b] end.
 
 Section Run.
-  Variable c : case.
+  Variable c : scase.
   Let hash := tbl_hash (c_hash c).
   Let mb := mem_backend hash (fun _ => true) (fun _ => true) (fun _ => true) (fun _ => None) (fun _ => None)
                         {| immutable_tags := false |}.
@@ -88,7 +88,7 @@ Definition obytes_eqb := option_eqb beqb.
 Definition stored_eqb (a b : bytes * list (option bytes)) : bool :=
   beqb (fst a) (fst b) && list_eqb obytes_eqb (snd a) (snd b).
 
-Definition model_agrees (c : case) : bool :=
+Definition s_model_agrees (c : scase) : bool :=
   let '(obs, stored) := model_run c in
   list_eqb uobs_eqb (c_obs c) obs && list_eqb stored_eqb (c_stored c) stored.
 
@@ -97,7 +97,7 @@ Definition is_http (k : stack) : bool :=
 
 (* the property's specification, applied to what was observed (scripts whose offsets and
    sizes do not fit int64 are outside it) *)
-Definition obs_ok (c : case) : bool :=
+Definition s_obs_ok (c : scase) : bool :=
   negb (fits (c_ops c))
   || check (tbl_hash (c_hash c)) (is_http (c_stack c)) (c_ops c) (c_obs c) (c_stored c).
 
@@ -111,7 +111,7 @@ Fixpoint crosses (ops : list uop) (obs : list uobs) (pending : Z) : bool :=
   | _ :: ops', _ :: obs' => crosses ops' obs' 0
   | _, _ => false
   end.
-Definition nontrivial (c : case) : bool :=
+Definition s_nontrivial (c : scase) : bool :=
   existsb is_resume (c_ops c) || crosses (c_ops c) (c_obs c) 0.
 
 (* ------------------------------------------------------------------ corr_sound *)
@@ -178,9 +178,9 @@ Qed.
 Lemma one_piece_concat b : concat (one_piece b) = b.
 Proof. destruct b; cbn; [reflexivity|]. now rewrite app_nil_r. Qed.
 
-Lemma corr_sound c : model_agrees c = true -> obs_ok c = true.
+Lemma s_corr_sound c : s_model_agrees c = true -> s_obs_ok c = true.
 Proof.
-  unfold model_agrees, obs_ok. destruct (fits (c_ops c)) eqn:Hfit; [|reflexivity]. cbn [negb orb].
+  unfold s_model_agrees, s_obs_ok. destruct (fits (c_ops c)) eqn:Hfit; [|reflexivity]. cbn [negb orb].
   unfold fits in Hfit. apply Z.leb_le in Hfit.
   destruct (model_run c) as [obs stored] eqn:Em. intros H. apply andb_true_iff in H as [H1 H2].
   rewrite (check_agree _ _ _ _ _ _ _ H1 H2). clear H1 H2.
@@ -198,12 +198,118 @@ Proof.
     eapply (unify_hop1_check _ _ (fun _ => true) _ _ _ _ _ eq_refl one_piece one_piece_concat); eauto.
 Qed.
 
+(* ------------------------------------------------------------------ codec cases *)
+
+(* what the harness saw chunkRange / parseRange return *)
+Inductive cr_obs := OCROk (a b : Z) | OCRErr (c : ecode).
+Inductive hr_obs := OHROk (l : list (Z * Z)) | OHRErr.
+
+Inductive case :=
+  | KScript (sc : scase)
+  | KRange (a b : Z) (str : bytes) (parsed : option (Z * Z))
+      (* RangeString(a, b) = str and ParseRange(str) = parsed *)
+  | KParse (str : bytes) (parsed : option (Z * Z))            (* ParseRange on any string *)
+  | KChunk (a b cl : Z) (res : cr_obs)
+      (* chunkRange on Content-Range: RangeString(a, b), Content-Length: cl *)
+  | KChunkRaw (cr : bytes) (cl : Z) (res : cr_obs)            (* chunkRange on any header *)
+  | KHttpRange (str : bytes) (res : hr_obs).                  (* ociserver.parseRange *)
+
+Definition zz_eqb (x y : Z * Z) : bool := (fst x =? fst y) && (snd x =? snd y).
+Definition ozz_eqb := option_eqb zz_eqb.
+
+Definition cr_agree (o : cr_obs) (m : chunk_range_result) : bool :=
+  match o, m with
+  | OCROk a b, CROk a' b' => (a =? a') && (b =? b')
+  | OCRErr UNSUPPORTED, CRBadRange | OCRErr UNSUPPORTED, CRBadLength _ => true
+  | _, _ => false
+  end.
+Definition hr_agree (o : hr_obs) (m : http_range_result) : bool :=
+  match o, m with
+  | OHROk l, HROk l' => list_eqb zz_eqb l (map (fun r => (hr_start r, hr_end r)) l')
+  | OHRErr, HRInvalid | OHRErr, HREndRelative => true
+  | _, _ => false
+  end.
+
+Definition model_agrees (c : case) : bool :=
+  match c with
+  | KScript sc => s_model_agrees sc
+  | KRange a b str parsed => beqb str (range_string a b) && ozz_eqb parsed (parse_range str)
+  | KParse str parsed => ozz_eqb parsed (parse_range str)
+  | KChunk a b cl res => cr_agree res (chunk_range (range_string a b) cl)
+  | KChunkRaw cr cl res => cr_agree res (chunk_range cr cl)
+  | KHttpRange str res => hr_agree res (parse_http_range str)
+  end.
+
+(* the codec part of the specification: ParseRange inverts RangeString on every range
+   0 <= a <= b except (0, 1); chunkRange recovers every such range when the Content-Length
+   is b - a and refuses any other Content-Length (except where "0-0" reads both ways) *)
+Definition valid_range (a b : Z) : bool := (0 <=? a) && (a <=? b) && (b <=? MAX64).
+Definition obs_ok (c : case) : bool :=
+  match c with
+  | KScript sc => s_obs_ok sc
+  | KRange a b str parsed =>
+      if valid_range a b && negb ((a =? 0) && (b =? 1)) then ozz_eqb parsed (Some (a, b)) else true
+  | KChunk a b cl res =>
+      if valid_range a b then
+        if cl =? b - a then match res with OCROk a' b' => (a' =? a) && (b' =? b) | _ => false end
+        else if (0 <=? cl) && negb ((a =? 0) && (b =? 0) && (cl =? 1)) && negb ((a =? 0) && (b =? 1) && (cl =? 0))
+             then match res with OCRErr _ => true | _ => false end
+             else true
+      else true
+  | _ => true
+  end.
+
+Definition nontrivial (c : case) : bool :=
+  match c with
+  | KScript sc => s_nontrivial sc
+  | _ => true
+  end.
+
+Lemma zz_eqb_refl x : zz_eqb x x = true.
+Proof. unfold zz_eqb. now rewrite !Z.eqb_refl. Qed.
+Lemma zz_eqb_eq x y : zz_eqb x y = true -> x = y.
+Proof.
+  destruct x, y. unfold zz_eqb. cbn. intros H. apply andb_true_iff in H as [H1 H2].
+  apply Z.eqb_eq in H1. apply Z.eqb_eq in H2. now subst.
+Qed.
+Lemma ozz_eqb_eq x y : ozz_eqb x y = true -> x = y.
+Proof. destruct x, y; cbn; try discriminate; auto. intros H. apply zz_eqb_eq in H. now subst. Qed.
+
+Lemma corr_sound c : model_agrees c = true -> obs_ok c = true.
+Proof.
+  destruct c as [sc|a b str parsed|str parsed|a b cl res|cr cl res|str res]; cbn [model_agrees obs_ok];
+    try reflexivity.
+  - apply s_corr_sound.
+  - intros H. apply andb_true_iff in H as [H1 H2]. apply beqb_eq in H1. subst str.
+    apply ozz_eqb_eq in H2. subst parsed.
+    destruct (valid_range a b && negb ((a =? 0) && (b =? 1))) eqn:E; [|reflexivity].
+    apply andb_true_iff in E as [Ev En]. unfold valid_range in Ev.
+    apply andb_true_iff in Ev as [Ev Hb]. apply andb_true_iff in Ev as [Ha Hab].
+    apply Z.leb_le in Ha, Hab, Hb.
+    rewrite parse_range_range_string; [cbn; apply zz_eqb_refl|lia|lia|].
+    intros Hx. injection Hx as -> ->. discriminate.
+  - intros H. destruct (valid_range a b) eqn:Ev; [|reflexivity]. unfold valid_range in Ev.
+    apply andb_true_iff in Ev as [Ev Hb]. apply andb_true_iff in Ev as [Ha Hab].
+    apply Z.leb_le in Ha, Hab, Hb.
+    destruct (Z.eqb_spec cl (b - a)) as [->|Hne].
+    + rewrite chunk_range_range_string in H by lia. destruct res as [a' b'|e]; [|destruct e; discriminate].
+      cbn in H. apply andb_true_iff in H as [H1 H2]. apply Z.eqb_eq in H1, H2. subst.
+      now rewrite !Z.eqb_refl.
+    + destruct ((0 <=? cl) && negb ((a =? 0) && (b =? 0) && (cl =? 1)) && negb ((a =? 0) && (b =? 1) && (cl =? 0))) eqn:E;
+        [|reflexivity].
+      apply andb_true_iff in E as [E E3]. apply andb_true_iff in E as [Hcl E2]. apply Z.leb_le in Hcl.
+      destruct (chunk_range_length_mismatch a b cl) as [n Hn]; try lia.
+      * intros Hx. injection Hx as -> -> ->. discriminate.
+      * intros Hx. injection Hx as -> -> ->. discriminate.
+      * rewrite Hn in H. destruct res; [cbn in H; discriminate|reflexivity].
+Qed.
+
 Definition mismatches (cs : list case) : list (N * bool) :=
   bad_from 0 (fun c => if model_agrees c then None else Some (obs_ok c)) cs.
 Definition bad_obs (cs : list case) : list (N * bool) :=
   bad_from 0 (fun c => if obs_ok c then None else Some (model_agrees c)) cs.
 
 (* diagnostics *)
-Definition where_bad (c : case) :=
+Definition where_bad (c : scase) :=
   let '(obs, stored) := model_run c in
   (bad_from 0 (fun p => if uobs_eqb (fst p) (snd p) then None else Some p) (combine (c_obs c) obs), stored).
